@@ -26,6 +26,7 @@ def _nesting(text):
 
 def run(chk):
     thorough = chk.tier == 'thorough'
+    chk.bounds['families added after seeded changes'] = 'native comparison at k = nesting depth through model_check_formula and model_check_formula_dirty, incl. sibling quantifiers renamed to distinct names'
     chk.bounds.update({'E-MIR': '6 base formulas (all operator classes, <= 3 variables, domains, wild-cards, constants); rewrites: 1-2 (thorough 3) symbolic whitespace characters (ASCII + Unicode representatives) at every pair of token boundaries, one redundant parenthesis pair around every sub-formula, every long/short operator spelling combination, the three constant spellings, consistent renaming with symbolic pairwise-distinct names of 1-2 characters',
                        'claim': 'the preprocessed tree of the rewritten text is identical to that of the base text (evaluation is a function of the tree); results are additionally compared natively for concrete variants',
                        'outside': 'formulas beyond the base list'})
